@@ -463,6 +463,116 @@ func c32(c *an.Check) {
 		}
 	}
 	c.Require(okAdv, "PROVENANCE", "solicit.FindMatchingHashes advances both cursors on a match", fm, "", 1, "i++ and j++ in the match branch", "the match branch does not advance both cursors")
+	// merge discipline: on every way back to the loop head the cursors move exactly as the comparison says —
+	// equal: both; local element smaller: only the local cursor; remote element smaller: only the remote cursor
+	{
+		st := p.NewState(fm)
+		var cmpCall *ssa.Call
+		for _, cc := range an.Calls(fm, an.X("bytes", "", "Compare")) {
+			cmpCall = cc
+		}
+		var phiI, phiJ *ssa.Phi
+		if cmpCall != nil {
+			if ix, ok := elemOf(st, cmpCall.Call.Args[0], 0); ok {
+				phiI, _ = ix.(*ssa.Phi)
+			}
+			if jx, ok := elemOf(st, cmpCall.Call.Args[1], 1); ok {
+				phiJ, _ = jx.(*ssa.Phi)
+			}
+		}
+		okM, whyM, nBack := phiI != nil && phiJ != nil && phiI.Block() == phiJ.Block(), "cursor variables of the merge loop not resolved", 0
+		if okM {
+			head := phiI.Block()
+			step := func(ph *ssa.Phi, e ssa.Value) int {
+				if e == ssa.Value(ph) {
+					return 0
+				}
+				if bo, ok := e.(*ssa.BinOp); ok && bo.Op == token.ADD && bo.X == ssa.Value(ph) && an.IsIntConst(bo.Y, 1) {
+					return 1
+				}
+				return -1
+			}
+			for pi, pred := range head.Preds {
+				if !head.Dominates(pred) {
+					continue // loop entry
+				}
+				nBack++
+				di, dj := step(phiI, phiI.Edges[pi]), step(phiJ, phiJ.Edges[pi])
+				rel := an.ANY
+				for _, dc := range an.DominatingConds(pred.Instrs[0]) {
+					x, y, r, isCmp := st.CondRel(dc.Cond, dc.Want)
+					if isCmp && x == ssa.Value(cmpCall) && an.IsIntConst(y, 0) {
+						rel &= r
+					}
+				}
+				want := [2]int{-1, -1}
+				switch rel {
+				case an.EQ:
+					want = [2]int{1, 1}
+				case an.LT:
+					want = [2]int{1, 0}
+				case an.GT:
+					want = [2]int{0, 1}
+				default:
+					okM, whyM = false, "a way back to the loop head is not under a definite outcome of the comparison"
+					continue
+				}
+				if di != want[0] || dj != want[1] {
+					okM, whyM = false, fmt.Sprintf("on the branch where Compare(local[i], remote[j]) is %s the cursors move by (%d,%d), expected (%d,%d): elements are skipped or compared twice and the two ends compute different sets", relName(rel), di, dj, want[0], want[1])
+				}
+			}
+			if nBack != 3 && okM {
+				okM, whyM = false, fmt.Sprintf("%d ways back to the loop head (expected 3: equal / smaller / greater)", nBack)
+			}
+		}
+		c.Require(okM, "ORDER", "solicit.FindMatchingHashes moves its cursors as a sorted merge", fm, "", nBack, "(==: i++,j++) (<: i++) (>: j++)", whyM)
+	}
+	// the merge's precondition on the local side: the list every end advertises and merges is sorted, with the very
+	// comparator the merge uses
+	{
+		cph := p.Func(solPkg, "", "ComputeProtocolHashes")
+		sh := p.Func(solPkg, "", "SortHashes")
+		okS, whyS := cph != nil, "ComputeProtocolHashes not found"
+		if cph != nil {
+			c.EachReturn("ORDER", "solicit.ComputeProtocolHashes returns its list sorted", cph, "sort of the returned slice executed after it was filled", func(s *an.State, ret *ssa.Return) string {
+				rv := s.RetVal(ret, 0)
+				sorted := s.Executed(ret, func(i ssa.Instruction) bool {
+					call, ok := i.(*ssa.Call)
+					if !ok {
+						return false
+					}
+					if an.IsCallTo(call, an.R(solPkg, "", "SortHashes")) || an.IsCallTo(call, an.X("slices", "", "SortFunc")) {
+						return s.Key(call.Call.Args[0]) == s.Key(rv)
+					}
+					return false
+				})
+				if !sorted {
+					return "the advertised hash list is returned without having been sorted: the peer's merge (which assumes sorted input) misses matches, and the two ends disagree"
+				}
+				return ""
+			})
+		}
+		// the sort uses bytes.Compare — the merge's comparator
+		sortFn := sh
+		if sortFn == nil {
+			sortFn = cph
+		}
+		if sortFn != nil {
+			okS, whyS = false, "no slices.SortFunc call found"
+			for _, call := range an.Calls(sortFn, an.X("slices", "", "SortFunc")) {
+				okS, whyS = true, ""
+				if f, isF := call.Call.Args[1].(*ssa.Function); !isF || f.Name() != "Compare" || f.Pkg == nil || f.Pkg.Pkg.Path() != "bytes" {
+					if mc, isMC := call.Call.Args[1].(*ssa.MakeClosure); !isMC || mc.Fn.Name() != "Compare" {
+						okS, whyS = false, "the hash list is sorted with a comparator other than bytes.Compare, which the merge uses"
+					}
+				}
+				if !an.IsParam(call.Call.Args[0], 0) && sortFn == sh {
+					okS, whyS = false, "SortHashes does not sort its argument"
+				}
+			}
+		}
+		c.Require(okS, "ORDER", "solicit hash lists are sorted with the merge's comparator (bytes.Compare)", sortFn, "", 1, "slices.SortFunc(hashes, bytes.Compare)", whyS)
+	}
 	c.Note("not decided: that the merge equals set intersection for all sorted inputs (value-level)")
 }
 
@@ -479,4 +589,17 @@ func init() {
 		Explain:     "Decides on SSA: (ROLE) ComputeSessionID hashes exactly its two parameters with the first operand <= the second on every path (phi-swapped min/max), so both argument orders give one digest; operands are self-delimiting peer IDs and the result is a fixed 32-byte prefix; FindMatchingHashes records an element only on the bytes.Compare(local[i],remote[j])==0 edge, as a clone of local[i], and advances both cursors there.",
 		NotCov:      "that the merge equals set intersection for all sorted inputs with duplicates (value-level algorithm).",
 		Assumptions: commonAssumptions})
+}
+
+
+func relName(r an.Rel) string {
+	switch r {
+	case an.EQ:
+		return "== 0"
+	case an.LT:
+		return "< 0"
+	case an.GT:
+		return "> 0"
+	}
+	return "?"
 }
